@@ -4,9 +4,10 @@
 //! A case is `(mk_case op src tgt lo n extra)`: the `n` consecutive payloads `lo, lo+1, ..` followed by
 //! the listed payloads `extra`, all of source type `src` (integers: the value; Float/Double: the IEEE bit
 //! pattern; Boolean: 0/1; StatusCode: the bits), are converted (`op = Convert`) or cast (`op = Cast`)
-//! to `tgt`.  The canonical output has two
-//! numbers per payload: `[type code; payload]` of the returned Variant, `[-1; 0]` for `Variant::Empty`,
-//! `[-2; 0]` for a panic.  NaN results are canonicalised to the quiet NaN with an empty payload.
+//! to `tgt`.  Per payload the result is a pair (type code, payload) of the returned Variant, (-1, 0) for
+//! `Variant::Empty`, (-2, 0) for a panic; NaN results are canonicalised to the quiet NaN with an empty
+//! payload.  The canonical output is the run-length encoding of the pairs (type code, d) as triples
+//! `[count; type code; d]`, where d = result - source payload for results of an integer type.
 #[path = "../util.rs"]
 mod util;
 use opcua::types::{Variant, VariantTypeId};
@@ -291,16 +292,22 @@ impl Property for P {
     }
     fn exec(c: &Case) -> Out {
         let ps: Vec<i128> = (0..c.n as i128).map(|i| c.lo + i).chain(c.extra.iter().cloned()).collect();
-        let mut out = Vec::with_capacity(2 * ps.len());
+        // run-length encoding of the pairs (type code, d): d = result - source payload for integer results
+        let mut runs: Vec<(i128, i128, i128)> = Vec::new();
         let mut some = false;
         let mut none = false;
         for p in &ps {
             let v = mk(c.src, *p);
             let r = guarded(|| if c.cast { v.cast(c.tgt.id()) } else { v.convert(c.tgt.id()) });
-            let (t, p) = match r { Ok(r) => code(&r), Err(_) => (-2, 0) };
+            let (t, w) = match r { Ok(r) => code(&r), Err(_) => (-2, 0) };
             if t == -1 { none = true } else { some = true }
-            out.push(t); out.push(p);
+            let d = if (2..=9).contains(&t) { w - *p } else { w };
+            match runs.last_mut() {
+                Some(last) if last.1 == t && last.2 == d => last.0 += 1,
+                _ => runs.push((1, t, d)),
+            }
         }
+        let out: Vec<i128> = runs.iter().flat_map(|r| [r.0, r.1, r.2]).collect();
         let kind = |t: T| if t.is_float() { "float" } else if t.is_int() { "int" } else if t == Boolean { "bool" } else { "status" };
         let tag = format!("{}-{}-to-{}{}{}", if c.cast { "cast" } else { "convert" }, kind(c.src), kind(c.tgt),
             if c.n > 1 { "-range" } else if ps.len() > 1 { "-list" } else { "" },
